@@ -1,1 +1,17 @@
 //! Verification hooks: stream (see verif/mod.rs).
+//!
+//! Reader: `OutputLog::{verif_from_paths, verif_paths, verif_index, verif_cat, verif_superseded}` are defined
+//! in `verif/stream_reader_access.rs`, which `stream/reader/outputlog.rs` mounts as a child module (the index
+//! is private to that file). Writer: `run_stream_writer` drives the production `stream_writer`.
+//! The public writer path (`StreamerRef::new` → `Streamer::get_stream` → `StreamSender::{send_data, flush}`)
+//! and `OutputLog::{open, cat, export, summary}` need no hook.
+pub use crate::stream::reader::outputlog::verif_access::InstanceDump;
+pub use crate::stream::reader::outputlog::OutputLog;
+pub use crate::transfer::stream::StreamChunkHeader;
+pub use crate::worker::streamer::verif_access::{run_stream_writer, VerifMessage};
+pub use crate::worker::streamer::{STREAM_FILE_HEADER, STREAM_FILE_SUFFIX};
+
+/// `STREAMER_BUFFER_SIZE`: capacity of the queue in front of one `stream_writer`.
+pub fn streamer_buffer_size() -> usize {
+    crate::worker::streamer::verif_access::streamer_buffer_size()
+}
